@@ -67,6 +67,22 @@ def bounded_cases(seed, thorough=False):
         yield {'name': f"construction_route|{k}", 'ok': same, 'detail': '' if same else f"{v.iso_id} != {b_ids['int_marks'].iso_id}"}
     again = pgp.isotherm_from_json(b_ids['bool_marks'].to_json()).iso_id
     yield {'name': 'json_round_trip_same_id|bool_marks', 'ok': again == b_ids['bool_marks'].iso_id, 'detail': f"{again} vs {b_ids['bool_marks'].iso_id}"}
+    # values equal to 8 decimals, one of them slightly negative (rounds to -0.0)
+    z1 = pygaps.PointIsotherm(pressure=[1.0, 2.0, 3.0], loading=[-1e-12, 2.0, 3.0], **meta).iso_id
+    z2 = pygaps.PointIsotherm(pressure=[1.0, 2.0, 3.0], loading=[0.0, 2.0, 3.0], **meta).iso_id
+    yield {'name': 'equal_to_8_decimals_same_id|tiny_negative_value', 'ok': z1 == z2, 'detail': '' if z1 == z2 else f"{z1} != {z2}"}
+    # the same table with and without its (identical) branch column, with a supplementary column that sorts before 'branch'
+    t = pandas.DataFrame({'pressure': [0.1, 0.2, 0.3], 'loading': [1.0, 2.0, 3.0], 'alpha': [5.0, 6.0, 7.0]})
+    c1 = pygaps.PointIsotherm(isotherm_data=t, pressure_key='pressure', loading_key='loading', **meta)
+    c2 = pygaps.PointIsotherm(isotherm_data=c1.data_raw.copy(), pressure_key='pressure', loading_key='loading', **meta)
+    yield {'name': 'construction_route|table_with_and_without_branch_column', 'ok': c1.iso_id == c2.iso_id, 'detail': f"{list(c1.data_raw.columns)} vs {list(c2.data_raw.columns)}"}
+    # a model isotherm fitted on integer literals has an identifier (and the same as with float literals)
+    try:
+        m1 = pygaps.ModelIsotherm(pressure=[1, 2, 3, 4], loading=[2, 4, 6, 8], model='Henry', **meta).iso_id
+        m2 = pygaps.ModelIsotherm(pressure=[1.0, 2.0, 3.0, 4.0], loading=[2.0, 4.0, 6.0, 8.0], model='Henry', **meta).iso_id
+        yield {'name': 'construction_route|model_fitted_on_integer_literals', 'ok': m1 == m2, 'detail': '' if m1 == m2 else f"{m1} != {m2}"}
+    except Exception as exc:
+        yield {'name': 'construction_route|model_fitted_on_integer_literals', 'ok': False, 'detail': f"{type(exc).__name__}: {exc}"[:160]}
     ints = pygaps.PointIsotherm(pressure=[1, 2, 3], loading=[1, 2, 3], **meta).iso_id
     flts = pygaps.PointIsotherm(pressure=[1., 2., 3.], loading=[1., 2., 3.], **meta).iso_id
     yield {'name': 'construction_route|integer_vs_float_literals', 'ok': ints == flts, 'detail': '' if ints == flts else f"{ints} != {flts}"}
